@@ -304,8 +304,10 @@ def run(chk) -> None:
     chk.rule("R04g", "a tuple-unpacking of a str.split / rsplit result has exactly as many targets as the split can produce: maxsplit == targets - 1 and the separator is known to be present (dominating `sep in s`) or ValueError is handled")
     _r04f(chk)
     _r04g(chk)
+    chk.rule("R04i", "the python templater hands the raw string to its format-string slicer (string.Formatter().parse, bare ValueError on an unbalanced brace, no handler) only after the render call -- whose handlers convert the same failure to a templating error -- has accepted that string: the render_func call dominates every _slice_template call")
     chk.rule("R04h", "a variant's tree is handed to lint_fix_parsed only where it is known to exist: every call whose tree argument is `<variant>.tree` (None after a fatal parse failure) is dominated by a truthiness test or an assert of that same attribute")
     _r04h(chk)
+    _r04i(chk)
 
 
 # ---------------------------------------------------------------------------
@@ -317,6 +319,59 @@ R04F_REVIEWED = {
         "jinja2 extension protocol: parse() is called with the stream on the tag-name token; TokenStream.__next__ returns the current token and never raises "
         "StopIteration before EOF (at EOF it closes and keeps returning the eof token)",
 }
+
+
+def _r04i(chk) -> None:
+    """The python templater's raw slicer parses the same format string the render step formats.
+
+    ``string.Formatter().parse`` raises a bare ValueError on an unbalanced brace; the slicer has no handler of its
+    own because str.format -- inside render_func, whose handlers convert to SQLTemplaterError -- rejects exactly
+    those strings first.  That only holds while the render call dominates the slicer call.
+    """
+    repo = chk.repo
+    m = repo.mod("src/sqlfluff/core/templaters/python.py")
+    sl = repo.fn("src/sqlfluff/core/templaters/python.py", "PythonTemplater._slice_template")
+    from ..flowutil import sole_expr_origin
+
+    scfg = cfg_of(sl)
+
+    def _is_formatter(e: ast.AST, at) -> bool:
+        if isinstance(e, ast.Name):
+            e = sole_expr_origin(scfg, e, at) or e
+        return isinstance(e, ast.Call) and last_attr(e) == "Formatter"
+
+    parses = [c for c in calls_in(sl) if last_attr(c) == "parse" and isinstance(c.func, ast.Attribute) and _is_formatter(c.func.value, scfg.stmt_of(c))]
+    if not parses:
+        raise AnalysisError("R04i: PythonTemplater._slice_template no longer walks string.Formatter().parse; re-confirm what it can raise")
+    if any(_in_try_taking(c, {"ValueError", "Exception"}) for c in parses) and all(_in_try_taking(c, {"ValueError", "Exception"}) for c in parses):
+        chk.note("R04i: the slicer handles ValueError itself; call order is free")
+        return
+    n = 0
+    for q, f in m.functions():
+        if not q.startswith("PythonTemplater."):
+            continue
+        cs = [c for c in calls_in(f) if last_attr(c) == "_slice_template" and c.args]
+        if not cs:
+            continue
+        cfg = cfg_of(f)
+        params = {a.arg for a in f.args.args + f.args.kwonlyargs}
+        for c in cs:
+            n += 1
+            st = cfg.stmt_of(c)
+            arg = norm(c.args[0])
+            renders = [
+                r for r in calls_in(f)
+                if isinstance(r.func, ast.Name) and r.func.id in params and r.func.id.startswith("render") and r.args and norm(r.args[0]) == arg
+            ]
+            ok = any(cfg.stmt_of(r) is not st and cfg.dominates(cfg.stmt_of(r), st) for r in renders)
+            chk.require(
+                ok, "R04i", c,
+                f"{q} slices `{arg}` with string.Formatter().parse before (or without) rendering it: an unbalanced brace raises a bare ValueError from the slicer, which has no "
+                "handler because the render step -- whose handlers turn the same failure into a SQLTemplaterError / TMP violation -- was meant to reject the string first",
+                detail=f"{q}: render_func dominates the raw slicer",
+            )
+    chk.count("R04i.slicer_calls", n)
+    chk.floor("R04i.slicer_calls", 1)
 
 
 def _in_try_taking(node: ast.AST, names: Set[str]) -> bool:
@@ -1481,6 +1536,12 @@ _ELSE_NEW = (
 )
 
 VARIANTS: List[Variant] = [
+    Variant(
+        "python-templater-slices-before-rendering", "src/sqlfluff/core/templaters/python.py",
+        "        templated_str = render_func(raw_str)\n        templater_logger.debug(\"    Templated String: %r\", templated_str)\n        # Slice the raw file\n        raw_sliced = list(self._slice_template(raw_str))\n",
+        "        # Slice the raw file\n        raw_sliced = list(self._slice_template(raw_str))\n        templated_str = render_func(raw_str)\n        templater_logger.debug(\"    Templated String: %r\", templated_str)\n",
+        "R04i", "slice_file", "seeded C04-8",
+    ),
     Variant(
         "alternate-variant-skipped-on-the-wrong-field", "src/sqlfluff/core/linter/linter.py",
         "                if alternate_variant is root_variant or not alternate_variant.tree:\n",
